@@ -1038,12 +1038,22 @@ def apply_real(t, op, observed):
             t.append_cell(op["y"], mk_cell(op["cell"]))
     elif o == "delete_cell":
         t.delete_cell(_co(op["coord"]))
-    elif o == "set_column":
-        t.set_column(op["x"], Column(repeated=op["r"] if op["r"] > 1 else None))
-    elif o == "insert_column":
-        t.insert_column(op["x"], Column(repeated=op["r"] if op["r"] > 1 else None))
-    elif o == "append_column":
-        t.append_column(Column(repeated=op["r"] if op["r"] > 1 else None))
+    elif o in ("set_column", "insert_column", "append_column"):
+        # the caller keeps one Column object per shape and hands it in again and again: what it hands in stays
+        # its own (the setters copy), so the same object may be given any number of times
+        held = t.__dict__.setdefault("_vf_columns", {})
+        col = held.get(op["r"])
+        if col is None:
+            col = held[op["r"]] = Column(repeated=op["r"] if op["r"] > 1 else None)
+        was = col.serialize()
+        if o == "set_column":
+            t.set_column(op["x"], col)
+        elif o == "insert_column":
+            t.insert_column(op["x"], col)
+        else:
+            t.append_column(col)
+        if col.serialize() != was or (col.parent is not None and col.parent.tag == "table:table"):
+            raise AssertionError(f"the Column given to {o} was changed or taken by the table")
     elif o == "delete_column":
         t.delete_column(op["x"])
     elif o == "set_column_values":
